@@ -301,7 +301,9 @@ type Layout struct {
 	EOLAfter int  // > 0: the line ends in front of this token index (blanks and a comment may come first)
 }
 
-var commentTexts = []string{"", " note", " voilà", " \xa0", " x\x85", " tab\there", " // nested", ` "quote`, " <L x>", " S1F1 W .", " trailing   ", " \t ", "日本語", " \xff\xfe", " 100% \v", " a\fb", " é", " …", " Ω  "}
+var commentTexts = []string{"", " note", " voilà", " \xa0", " x\x85", " tab\there", " // nested", ` "quote`, " <L x>", " S1F1 W .", " trailing   ", " \t ", "日本語", " \xff\xfe", " 100% \v", " a\fb", " é", " …", " Ω  ",
+	// a carriage return inside a comment does not end it (only the line feed does)
+	" was:\r2", " old\r\"CD\"", " cr\r<I2 7> ", " \r256", " x\r", " \r>"}
 
 func (l *Layout) gap(first bool) string {
 	r := l.R
